@@ -26,6 +26,7 @@ pub struct Style {
     pub index_dot: bool,     // [n] vs .n
     pub this_prefix: bool,   // explicit leading this.
     pub indent: usize,       // spaces per level (0 => 2)
+    pub indent_tab: bool,    // tabs instead of spaces
     pub comments: bool,      // insert # comments between/after clauses
     pub blank_lines: bool,   // blank lines between clauses, trailing spaces
     pub break_lists: bool,   // line breaks inside list literals / filters
@@ -93,6 +94,9 @@ impl<'a> R<'a> {
     }
     fn ind(&self, lvl: usize) -> String {
         let n = if self.st.indent == 0 { 2 } else { self.st.indent };
+        if self.st.indent_tab {
+            return "\t".repeat(lvl);
+        }
         " ".repeat(n * lvl)
     }
     fn comment(&self) -> String {
@@ -110,6 +114,10 @@ impl<'a> R<'a> {
             s.push_str("  \n\n");
         } else {
             s.push('\n');
+        }
+        if self.st.comments && self.ctr.get() % 3 == 1 {
+            // a comment on a line of its own between two clauses
+            s.push_str("      # between clauses: x == 1 or y exists <<not a message>>\n");
         }
         s
     }
@@ -469,6 +477,31 @@ impl<'a> R<'a> {
             o.push_str(&self.rule(r));
         }
         o
+    }
+}
+
+impl Style {
+    /// a style vector as printed by MC_Syntax (STYLE lines)
+    pub fn from_json(j: &J) -> Style {
+        let b = |k: &str| j[k].as_bool().unwrap_or(false);
+        let n = |k: &str| j[k].as_u64().unwrap_or(0);
+        Style {
+            upper: b("upper"),
+            or_variant: n("or") as u8,
+            not_variant: n("not") as u8,
+            assign_colon: b("assign"),
+            single_quotes: b("single"),
+            index_dot: b("dot"),
+            this_prefix: b("this"),
+            indent: n("indent") as usize,
+            indent_tab: b("tab"),
+            comments: b("comments"),
+            blank_lines: b("blanks"),
+            break_lists: b("breaks"),
+            bare_default: b("bare"),
+            type_as_query: b("tq"),
+            mix: n("mix"),
+        }
     }
 }
 
